@@ -37,6 +37,10 @@ pub enum LfoOp {
     Read(u8),
     /// n times: set_frequency(a), tick, set_frequency(b), tick (many frequency changes in a row)
     FreqBurst { a: f32, b: f32, n: u16 },
+    /// n phase jumps in a row with no tick in between (set_phase(a) / set_phase(b) alternating, or set_phase(a) / reset()),
+    /// then all five shapes are read
+    #[serde(alias = "JumpBurst")]
+    PhaseBurst { a: f32, b: f32, n: u16, with_reset: bool },
 }
 
 #[derive(Debug, Clone, Serialize, Deserialize, PartialEq)]
@@ -271,13 +275,24 @@ pub fn run_case(case: &LfoCase, mask: u32, tick_budget: u64, stats: &mut Stats) 
                 expanded.push(LfoOp::SetFrequency(*b));
                 expanded.push(LfoOp::Tick(1));
             }
+        } else if let LfoOp::PhaseBurst { a, b, n, with_reset } = op {
+            for i in 0..*n {
+                expanded.push(if i % 2 == 0 {
+                    LfoOp::SetPhase(*a)
+                } else if *with_reset {
+                    LfoOp::Reset
+                } else {
+                    LfoOp::SetPhase(*b)
+                });
+            }
+            expanded.push(LfoOp::Read(((*n as u32 * 7) % 120) as u8));
         } else {
             expanded.push(op.clone());
         }
     }
     for (step, op) in expanded.iter().enumerate() {
         match op {
-            LfoOp::FreqBurst { .. } => {}
+            LfoOp::FreqBurst { .. } | LfoOp::PhaseBurst { .. } => {}
             LfoOp::Reset => {
                 lfo.reset();
                 if mask & C11 != 0 && lfo.verif_phase_bits() != 0 {
